@@ -242,3 +242,42 @@ pub fn walk(b: &[u8]) -> Walk {
 pub fn rec_json(r: &Rec) -> Value {
     json!([name_digest(&r.name), r.rtype, r.class, (r.ttl >> 16), (r.ttl & 0xffff), r.rdata.len(), digest(&r.rdata)])
 }
+
+/// The harness's own encoder for a query (RFC 1035 + 6891): no compression.
+#[allow(clippy::too_many_arguments)]
+pub fn build_query(id: u16, rd: bool, cd: bool, ad: bool, name: &[Vec<u8>], qtype: u16, qclass: u16, edns: Option<(u16, bool, Vec<(u16, Vec<u8>)>)>) -> Vec<u8> {
+    let mut b = vec![];
+    b.extend(id.to_be_bytes());
+    let flags: u16 = ((rd as u16) << 8) | ((ad as u16) << 5) | ((cd as u16) << 4);
+    b.extend(flags.to_be_bytes());
+    b.extend(1u16.to_be_bytes());
+    b.extend(0u16.to_be_bytes());
+    b.extend(0u16.to_be_bytes());
+    b.extend((edns.is_some() as u16).to_be_bytes());
+    for l in name {
+        b.push(l.len() as u8);
+        b.extend(l);
+    }
+    b.push(0);
+    b.extend(qtype.to_be_bytes());
+    b.extend(qclass.to_be_bytes());
+    if let Some((bufsize, dobit, opts)) = edns {
+        b.push(0);
+        b.extend(41u16.to_be_bytes());
+        b.extend(bufsize.to_be_bytes());
+        b.extend((((dobit as u32) << 15)).to_be_bytes());
+        let mut rd = vec![];
+        for (c, v) in opts {
+            rd.extend(c.to_be_bytes());
+            rd.extend((v.len() as u16).to_be_bytes());
+            rd.extend(v);
+        }
+        b.extend((rd.len() as u16).to_be_bytes());
+        b.extend(rd);
+    }
+    b
+}
+
+pub fn lower(name: &[Vec<u8>]) -> Vec<Vec<u8>> {
+    name.iter().map(|l| l.iter().map(|c| c.to_ascii_lowercase()).collect()).collect()
+}
